@@ -11,6 +11,16 @@ def _key(a, b):
     return json.dumps(sorted([str(a), str(b)]))
 
 
+def _own(v):
+    if isinstance(v, (str, int, float, bool)) or v is None:
+        return v
+    import copy
+    try:
+        return copy.deepcopy(v)
+    except Exception:
+        return v
+
+
 def canon_nx(g, drop_graph_id=True):
     """Canonical form of one networkx graph: nodes by NodeID, edges by NodeID pair."""
     nodes, dup, anon = {}, [], 0
@@ -19,7 +29,8 @@ def canon_nx(g, drop_graph_id=True):
         if nid is None:
             anon += 1
             nid = f'<anon:{anon}>'
-        p = {k: v for k, v in d.items() if not (drop_graph_id and k == GRAPH_ID)}
+        # values are copied: a snapshot must not change when the store later changes a stored list / dict in place
+        p = {k: _own(v) for k, v in d.items() if not (drop_graph_id and k == GRAPH_ID)}
         if nid in nodes:
             dup.append(nid)
             nodes[f'{nid}<dup:{len(dup)}>'] = p
@@ -32,7 +43,7 @@ def canon_nx(g, drop_graph_id=True):
         k = _key(ka, kb)
         if k in edges:
             k = k + '<dup>'
-        edges[k] = dict(d)
+        edges[k] = {a_: _own(b_) for a_, b_ in d.items()}
     out = {'nodes': nodes, 'edges': edges}
     if dup:
         out['dup_node_ids'] = sorted(dup)
